@@ -426,7 +426,7 @@ struct DeflateSession {
                         return false;
                 }
                 if (ref.out.size() > st->total_in || memcmp(ref.out.data(), data.data(), ref.out.size())) {
-                        rr.fail("C07.roundtrip", strf("prefix at flush point decodes to wrong bytes (decoded %zu, fed %u)", ref.out.size(), st->total_in));
+                        rr.fail(eff_dict ? "C17.dict_roundtrip" : "C07.roundtrip", strf("prefix at flush point decodes to wrong bytes (decoded %zu, fed %u%s)", ref.out.size(), st->total_in, eff_dict ? "; session primed with a dictionary, decoder primed with its last window-size bytes" : ""));
                         return false;
                 }
                 if (ref.out.size() != st->total_in) {
@@ -451,15 +451,20 @@ struct DeflateSession {
                 size_t n = outbuf.size();
                 int s = ref.feed(outbuf.data(), n);
                 h.rec("end", { (int64_t) n, s, (int64_t) hash_bytes(outbuf.data(), n) });
-                if (s == REF_ERR_TRAILER) {
+                bool data_ok = ref.out.size() == data.size() && !memcmp(ref.out.data(), data.data(), data.size());
+                if (eff_dict && (!data_ok || (s != REF_DONE && s != REF_ERR_TRAILER))) {
+                        rr.fail("C17.dict_roundtrip", strf("compression primed with a %zu-byte dictionary (mode %d), decoder primed with its last %zu bytes: reference %s, decoded %zu of %zu bytes, content %s", dict.size(), (int) plan.at("dict").geti("mode"), eff_dict_len, ref_status_name(s), ref.out.size(), data.size(), data_ok ? "equal" : "differs"));
+                        return;
+                }
+                if (s == REF_ERR_TRAILER && data_ok) {
                         rr.fail("C11.trailer", strf("trailer stored %08x/%u, reference checksum of the %zu decoded bytes differs (wrap %d)", ref.trailer_crc, ref.trailer_isize, ref.out.size(), wrap));
                         return;
                 }
-                if (s != REF_DONE) {
+                if (s != REF_DONE && s != REF_ERR_TRAILER) {
                         rr.fail("C07.roundtrip", strf("reference decoder on %zu output bytes: %s at bit %llu", n, ref_status_name(s), (unsigned long long) ref.err_bit));
                         return;
                 }
-                if (ref.out.size() != data.size() || memcmp(ref.out.data(), data.data(), data.size())) {
+                if (!data_ok) {
                         rr.fail("C07.roundtrip", strf("decoded %zu bytes, input was %zu bytes, content %s", ref.out.size(), data.size(), ref.out.size() == data.size() ? "differs" : "length differs"));
                         return;
                 }
@@ -656,6 +661,23 @@ static void exec_deflate(const Json &plan, RunResult &rr, Hist &h)
 {
         DeflateSession s(plan, rr, h);
         s.run();
+        // C17: the pre-processed dictionary gives the same stream as setting it directly (twin run, same call history)
+        if (!rr.violated() && (uint64_t) plan.at("dict").geti("mode") % 3 == 2 && plan.at("dict").geti("twin") && s.st && s.st->internal_state.state == ZSTATE_END) {
+                Json q = plan;
+                q.find("dict")->set("mode", 1);
+                RunResult r2;
+                Hist h2;
+                DeflateSession t(q, r2, h2);
+                t.run();
+                h.calls += h2.calls;
+                COUNT("probe.process_dict_vs_set_dict_twin");
+                if (r2.violated()) {
+                        rr = r2;
+                        return;
+                }
+                if (t.st && t.st->internal_state.state == ZSTATE_END && t.outbuf != s.outbuf) // (a twin cut short by the arena budget proves nothing)
+                        rr.fail("C17.process_vs_set", strf("same data, dictionary (%zu bytes) and call history: isal_deflate_process_dict + reset_dict gives %zu output bytes, isal_deflate_set_dict %zu, content %s", s.dict.size(), s.outbuf.size(), t.outbuf.size(), s.outbuf.size() == t.outbuf.size() ? "differs" : "length differs"));
+        }
 }
 
 // ------------------------------------------------------------------ generator
@@ -696,7 +718,7 @@ static Json gen_deflate(Rng &r0, const std::string &focus, int tier)
         Json dj = Json::obj();
         int dmode = (focus == "C17" ? r.chance(1, 2) : r.chance(1, 8)) ? 1 + (int) r.below(2) : 0;
         static const uint32_t dls[] = { 1, 2, 3, 8, 258, 4096, 32767, 32768, 32769, 40000, 65536, 70000 };
-        dj.set("mode", dmode).set("n", r.chance(1, 2) ? r.pick(dls) : (uint32_t) r.logsize(70000)).set("s", r.u64() >> 20).set("share", r.chance(2, 3) ? (int) (1 + r.logsize(40000)) : 0).set("shoff", r.chance(1, 2) ? 0 : r.u64() >> 40).set("shpos", (int) r.below(2)).set("hb_late", (int) r.chance(1, 3));
+        dj.set("mode", dmode).set("n", r.chance(1, 2) ? r.pick(dls) : (uint32_t) r.logsize(70000)).set("s", r.u64() >> 20).set("share", r.chance(2, 3) ? (int) (1 + r.logsize(40000)) : 0).set("shoff", r.chance(1, 2) ? 0 : r.u64() >> 40).set("shpos", (int) r.below(2)).set("hb_late", (int) r.chance(1, 3)).set("twin", (int) (focus == "C17" ? r.chance(1, 2) : r.chance(1, 8)));
         p.set("dict", dj);
         Json mem = Json::obj();
         bool recycle = (focus == "C07" || focus == "C05") && rmem.chance(1, 8);
